@@ -93,3 +93,14 @@ def gen_gnaddr_key():
     body += f"def probeEqIsMidOnly : Bool := {_lean_bool(p_eq)}\n"
     body += "end Generated.GnAddrKey\n"
     write_if_changed("GnAddrKey.lean", body)
+
+
+@gen_lean.register(props=["C08"])
+def gen_locks_for_c08():
+    """Generated/Locks.lean (lock sections, shared-attribute accesses and call sites of the router / location table,
+    the ast pass of harness/gen_locks.py, registered there for C15/C16 only) is an input of C08 too:
+    `FlexModel.Geo.LocTConc.srcLocked` reads from it whether every `LocationTable.new_*_packet` updates the LocTE inside
+    the `loc_t_lock` section that creates it (Props.C08.new_packet_updates_inside_creation_section).  Re-run the
+    generator so that a check of C08 sees the tree under test, not the facts of an earlier run."""
+    import gen_locks
+    gen_locks.gen_locks()
